@@ -15,7 +15,7 @@ def case_from_replay(rp, insts):
     cs = rp['case']
     for inst in insts:
         if S.G.line_prefix(inst).split() == cs['line'].split()[:5]:
-            c = S.SCase(inst, cs['extents'], cs.get('strides'), cs['slices'], 'replay'); c.ops = list(rp['ops'])
+            c = S.SCase(inst, cs['extents'], cs.get('strides'), cs['slices'], 'replay'); c.ops = list(rp['ops']); c.sl2 = cs.get('second_level_slices')
             kv = dict(x.split('=') for x in cs['line'].split() if '=' in x); c.h = int(kv.get('h', 0)); c.id = int(kv.get('id', 0)); return c
     return None
 
@@ -31,6 +31,18 @@ def analyse_C04(cases, rep):
                 rep.broke(payload(c, correspondence='sub family, exact transcript (%s)' % op, adm=c.adm, impl=xi[:400], model=xm[:400])); break
         rep.cov['traces_validated_against_impl'] += 1
         if not c.adm: continue
+        if c.sl2 is not None:      # a view of a view, reported relative to the root
+            xi = c.out('ch')
+            if not xi.startswith('off='):
+                rep.violation(payload(c, kind='submdspan-of-a-submdspan-undefined-on-valid-slices', impl=xi)); continue
+            d = dict(x.split('=') for x in xi.split(' ok ')[0].split()); got = vals('ok ' + xi.split(' ok ')[1]) if ' ok ' in xi else None
+            fin, want = S.spec_chain(c)
+            gext = [] if d['ext'] == '-' else [int(x) for x in d['ext'].split(',')]
+            if gext != fin: rep.violation(payload(c, kind='result-extents-differ-from-slicing-rule (view of a view)', impl=gext, specified=fin)); continue
+            if len(want) >= 2: rep.nontrivial(c.base())
+            if got != want:
+                rep.violation(payload(c, kind='view-element-is-not-the-selected-source-element (view of a view)', impl_addresses=(got or [])[:32], specified_addresses=want[:32])); continue
+            continue
         info = S.parse_info(c.out('info'))
         if info is None:
             rep.violation(payload(c, kind='submdspan_mapping-undefined-on-valid-slices', impl=c.out('info'))); continue
@@ -64,6 +76,21 @@ def analyse_C04(cases, rep):
 def analyse_C10(cases, rep):
     n_end = 0
     for c in cases:
+        if c.sl2 is not None:      # a view of a view: each level stays inside the one it was taken from, the whole inside the root
+            xi, xm = c.out('ch'), c.out('ch', side='model')
+            rep.cov['evaluations'] += 1; rep.cov['traces_validated_against_impl'] += 1
+            if xi.split(' ok ')[0] != xm.split(' ok ')[0]: rep.broke(payload(c, correspondence='sub family: offsets / spans of a view of a view', adm=c.adm, impl=xi[:300], model=xm[:300]))
+            if not c.adm or not xi.startswith('off='):
+                if c.adm: rep.violation(payload(c, kind='submdspan-of-a-submdspan-undefined-on-valid-slices', impl=xi))
+                continue
+            d = dict(x.split('=') for x in xi.split(' ok ')[0].split()); rep.nontrivial(c.base())
+            off, span, l1off, l1span, l2off = int(d['off']), int(d['span']), int(d['l1off']), int(d['l1span']), int(d['l2off']); sspan = S.src_span(c)
+            fin = [] if d['ext'] == '-' else [int(x) for x in d['ext'].split(',')]; nonempty = all(x > 0 for x in fin)
+            if l2off > l1span: rep.violation(payload(c, kind='offset-exceeds-source-required_span_size (second level of a view of a view)', offset=l2off, source_span=l1span)); continue
+            if l1off > sspan or off > sspan: rep.violation(payload(c, kind='offset-exceeds-source-required_span_size', offset=max(l1off, off), source_span=sspan)); continue
+            if nonempty and (l2off + span > l1span or off + span > sspan):
+                rep.violation(payload(c, kind='view-reaches-beyond-source-span (view of a view)', offset=off, view_span=span, source_span=sspan, level2_offset=l2off, level1_span=l1span)); continue
+            continue
         xi, xm = c.out('info'), c.out('info', side='model')
         rep.cov['evaluations'] += 1; rep.cov['traces_validated_against_impl'] += 1
         fields = lambda s: ' '.join(t for t in s.split() if t.split('=')[0] in ('off', 'span', 'sspan', 'ext')) if s.startswith('off=') else s
